@@ -10,6 +10,15 @@
   advanced by `atomic.AddUint64`), so an execution with concurrent selectors and updaters is a
   sequence of these atomic steps: "all interleavings" is "all `List Op`".
 
+  Ownership: the state is a value — `refresh eps` stores (a de-duplicated copy of) the LIST `eps`, so
+  in the model nothing the caller does to its slice afterwards can reach the selector.  That the Go
+  code really copies (`make` + `append`) instead of keeping the caller's backing array (`eps[:0]`)
+  cannot be stated about values; it is checked on the real code by the harness: every slice handed to
+  `Refresh` has spare capacity and is overwritten / deleted from in place / appended to right after
+  the call (and in the endpointmanager style: in-place delete from the caller's list, then `Remove`),
+  for all four selectors; a selector that aliases the argument then returns a non-member
+  (`C13:not-member:<selector>.Refresh-aliased`).
+
   The consistent-hash selector is not modelled here (ring placement belongs to C14); its C13 clauses
   are checked on the real code only.   Core Lean only.
 -/
